@@ -20,6 +20,10 @@ import SpsdkVerif.Proofs.HabSign
 import SpsdkVerif.Proofs.HabRoundtrip
 import SpsdkVerif.Proofs.HabVisible
 import SpsdkVerif.Proofs.HabRomAccept
+import SpsdkVerif.Proofs.HabRomGen
+import SpsdkVerif.Proofs.HabEdge
+import SpsdkVerif.Model.HabDcd
+import SpsdkVerif.Proofs.HabDcd
 import SpsdkVerif.Spec.HabRom
 import SpsdkVerif.Crypto.Exec
 import SpsdkVerif.Proofs.Crypto
@@ -311,6 +315,42 @@ theorem rom_accepts (cr : CryptoOps) (hl : CryptoLaws cr) (sg : Signer) (fuel : 
       r.decBlocks = (if isEnc c.flags then offs c.ivtOff c.encryptedBlocks else []) :=
   rom_accepts_lemma cr hl sg fuel c b s h hs ha hb hfit hd hx hm hn hver hentry
 
+/-- **`rom_accepts_general`** (phase 3): the same for HAB4 FAST AUTHENTICATION (`fast = true`: `Install NOCAK` in the
+    configuration — no CSF / image certificate is installed, the CSF is authenticated with key index 1 and the data with
+    index 0, the SRK itself; also with Install Secret Key / Decrypt Data) and for NON-STANDARD but legal command orders:
+    any number of Set / Unlock / NOP commands in EVERY gap of the mandatory chain (`weave gaps …`: in front of Install
+    SRK, between any two mandatory commands, behind the last one), `GenCfg` (`Model/HabGen.lean`).  The reader accepts, derives exactly
+    the two signed messages, the block lists and the AES-CCM plaintext, and reports the installed keys: the SRK source
+    index of the configuration, a CSF and an image certificate iff the chain is the standard one. -/
+theorem rom_accepts_general (cr : CryptoOps) (hl : CryptoLaws cr) (sg : Signer) (fuel : Nat) (c : Cfg) (b : Built)
+    (s : StdCsf) (fast : Bool) (gaps : List (List Cmd))
+    (h : c.WF) (hs : GenCfg c s fast gaps) (ha : c.flags ≠ 0) (hb : build cr sg fuel c = some b)
+    (hfit : CsfWF c.version b.cmds)
+    (hd : ∀ d, c.dcd = some d → DcdWF d) (hx : ∀ x, c.xmcd = some x → XmcdWF x)
+    (hm : macLenOk c.macLen = true) (hn : 7 ≤ c.nonce.length ∧ c.nonce.length ≤ 13) (hver : c.version / 16 = 4)
+    (hentry : c.start + c.ils ≤ c.entry ∧ c.entry < c.start + c.ils + c.appBin.length) :
+    ∃ r, Spec.HabRom.habCheck cr (exportImage c b) (if isEnc c.flags then some c.dek else none) = .ok r ∧
+      r.msgCsf = b.msgCsf ∧ r.msgData = b.msgData ∧ r.plain = (if isEnc c.flags then some c.appBin else none) ∧
+      r.csfOff = c.csfOff ∧ r.hdrLen = csfHdrLen b.cmds ∧ r.authBlocks = offs c.ivtOff c.signedBlocks ∧
+      r.decBlocks = (if isEnc c.flags then offs c.ivtOff c.encryptedBlocks else []) ∧
+      r.srk.map (·.2.2) = some s.srkSrc ∧ r.csfCert.isSome = !fast ∧ r.imgCert.isSome = !fast :=
+  rom_accepts_general_lemma cr hl sg fuel c b s fast gaps h hs ha hb hfit hd hx hm hn hver hentry
+
+/-- the standard shape of `rom_accepts` is the instance "standard chain, extras only between Authenticate CSF and
+    Install Key" of the general one -/
+theorem std_cfg_general (c : Cfg) (s : StdCsf) (hs : StdCfg c s) : GenCfg c s false [[], [], [], s.extras] :=
+  { cmds := by rw [hs.cmds]; simp [weave, mainList, mainStd, StdCsf.core, StdCsf.list],
+    gaps := by
+      intro g hg e he
+      simp only [List.mem_cons, List.not_mem_nil, or_false] at hg
+      rcases hg with rfl | rfl | rfl | rfl
+      · cases he
+      · cases he
+      · cases he
+      · exact hs.extras e he,
+    srkSrc := hs.srkSrc, imgSlot := hs.imgSlot, kek := hs.kek, keySlot := hs.keySlot, srkBlob := hs.srkBlob,
+    csfCert := hs.csfCert, imgCert := hs.imgCert }
+
 /-- … and an unsigned container passes the layout checks of the reader (pointers, boot-data length, entry point) -/
 theorem rom_accepts_plain (cr : CryptoOps) (c : Cfg) (b : Built) (h : c.WF) (h0 : c.flags = 0)
     (happ : b.app.length = c.appBin.length)
@@ -319,6 +359,33 @@ theorem rom_accepts_plain (cr : CryptoOps) (c : Cfg) (b : Built) (h : c.WF) (h0 
     ∃ r, Spec.HabRom.habCheck cr (exportImage c b) none = .ok r ∧ r.csfOff = 0 ∧ r.ivtSelf = c.start + c.ivtOff ∧
       r.start = c.start :=
   ⟨_, rom_accepts_plain_lemma cr c b h h0 happ hd hx hentry, rfl, rfl, rfl⟩
+
+/-! ## 8c. (phase 3) outside the hypotheses: oversize CSF, unaligned initial load size, plugin flag -/
+
+/-- **CSF larger than CSF_SIZE (0x2000)** — precise statement of what the builder does (the hypothesis `CsfWF … ≤ csfSize`
+    of `rom_accepts` / `ivt_points` is NECESSARY): `CsfHabSegment.export()` pads to a multiple of CSF_SIZE while
+    `CsfHabSegment.size` stays CSF_SIZE, so the exported CSF is ≥ 2·CSF_SIZE, the image is that much longer, and the
+    boot-data length is SHORT by exactly the overflow — the clause "boot-data length equal to the real size" fails
+    (and the ROM-side reader refuses: `csfOff + 0x2000 ≠ image length`). -/
+theorem csf_oversize_bootdata_short (c : Cfg) (b : Built) (h : c.WF) (ha : c.flags ≠ 0)
+    (happ : b.app.length = c.appBin.length)
+    (hbig : HabConsts.csfSize < (csfBase c.version b.cmds ++ encData b.cmds).length) :
+    (exportImage c b).length = c.csfOff + (csfBytes c.version b.cmds).length ∧
+    2 * HabConsts.csfSize ≤ (csfBytes c.version b.cmds).length ∧
+    c.bdt.length + ((csfBytes c.version b.cmds).length - HabConsts.csfSize) =
+      c.ivtOff + (exportImage c b).length + (if isEnc c.flags then HabConsts.keyblobSize else 0) :=
+  csf_oversize_lemma c b h ha happ hbig
+
+/-- **initial load size not 16-byte aligned** — `Cfg.WF.ils16` is necessary for "application in front of the CSF":
+    the CSF offset aligns `ils + len(app)` while the application is padded from `ils`; with `ils = 0xFFE` and a one-byte
+    application the padded application (ends at 0x100E) overruns the CSF offset 0x1000.  For aligned `ils` it never
+    does (`Proofs/HabLayout.lean: app_before_csf`, part of `ivt_points`). -/
+theorem ils_alignment_needed : ∃ ils n : Nat, ils % 16 ≠ 0 ∧ csfAbs (ils + n) < ils + alignUp n 16 :=
+  ⟨0xFFE, 1, by decide, by decide⟩
+
+/-- **plugin images**: the builder has no plugin option — the boot data of every built container has plugin flag 0
+    (also in `ivt_points`); the parser keeps a plugin flag 0..2 it reads (`bdt_roundtrip` below) -/
+theorem no_plugin_images (c : Cfg) : c.bdt.plugin = 0 := rfl
 
 end SpsdkVerif.C07
 
@@ -445,5 +512,156 @@ theorem exAuth_std : StdCfg exAuth exS :=
 example : (match Spec.HabRom.habCheck Crypto.execOps (exportImage exAuth exB) none with
     | .ok r => r.msgCsf == exB.msgCsf && r.msgData == exB.msgData && r.csfOff == exAuth.csfOff
     | .error _ => false) = true := by decide +kernel
+
+/-! ### a concrete FAST-AUTHENTICATION container with extras in every gap: the hypotheses of `rom_accepts_general` are
+    satisfiable, its conclusion by evaluation -/
+
+/-- NOP in front of Install SRK, Unlock between Install SRK and Authenticate CSF, nothing between Authenticate CSF and
+    Authenticate Data, Set + NOP behind Authenticate Data -/
+def exGaps : List (List Cmd) := [[.nop 0], [.unlock 0x1E 2 0], [], [.set 1 0x17 0xFF 0, .nop 7]]
+
+def exFast : Cfg :=
+  { exAuth with cmds := weave exGaps (mainList true exS (fun _ => 0) (sigBlob 0x42 []) [] (sigBlob 0x42 []) none) }
+
+theorem exFast_gen : GenCfg exFast exS true exGaps :=
+  { cmds := rfl, gaps := by decide, srkSrc := by decide, imgSlot := by decide, kek := by decide, keySlot := by decide,
+    srkBlob := ⟨0x40, [1, 2, 3, 4], by decide, by decide⟩, csfCert := ⟨0x42, [5, 6, 7, 8], by decide, by decide⟩,
+    imgCert := ⟨0x42, [9, 10], by decide, by decide⟩ }
+
+theorem exFast_wf : exFast.WF :=
+  { flags := Or.inr (Or.inl rfl), csf := by decide, ivtLe := by show 0 ≤ 0x100; decide, ils16 := by show 0x100 % 16 = 0; decide,
+    appOffKnown := by show 0x100 - 0 ∈ HabConsts.knownAppOffsets; decide,
+    notBoth := Or.inl rfl, dcdFits := fun d h => (by cases h), xmcdFits := fun x h => (by cases h),
+    addr := by
+      have : exFast.app.length = 16 := by simp [exFast, exAuth, exApp]
+      rw [this]
+      show 0x20200000 + csfAbs (0x100 + 16) + 0x2000 + 0x200 < 2 ^ 32
+      decide,
+    entry := by show 0x20200109 < 2 ^ 32; decide, nonzero := by show 0 < 0x20200000 + 0; decide }
+
+theorem exFast_builds : (build Crypto.execOps exSigner 4 exFast).isSome = true := by decide +kernel
+
+def exFB : Built := (build Crypto.execOps exSigner 4 exFast).get exFast_builds
+
+/-- the conclusion of `rom_accepts_general` on this container, by evaluation: the reader accepts, reports the two
+    messages, SRK source index 1 and NO installed certificate (fast authentication) -/
+example : (match Spec.HabRom.habCheck Crypto.execOps (exportImage exFast exFB) none with
+    | .ok r => r.msgCsf == exFB.msgCsf && r.msgData == exFB.msgData && r.csfOff == exFast.csfOff &&
+               r.csfCert.isNone && r.imgCert.isNone && r.srk.map (·.2.2) == some 1
+    | .error _ => false) = true := by decide +kernel
+
+/-- the hypotheses of `csf_oversize_bootdata_short` are satisfiable: the standard container with a 9000-byte SRK table -/
+example : HabConsts.csfSize < (csfBase exAuth.version [⟨.insKey 0 3 0 0 0 0, some (List.replicate 9000 0)⟩] ++
+    encData [⟨.insKey 0 3 0 0 0 0, some (List.replicate 9000 0)⟩]).length := by decide +kernel
+
+/-- `GenCfg` with `fast = false` is inhabited too: the standard container above -/
+example : GenCfg exAuth exS false [[], [], [], exS.extras] := std_cfg_general _ _ exAuth_std
+
+end SpsdkVerif.C07
+
+namespace SpsdkVerif.C07
+open SpsdkVerif SpsdkVerif.Hab SpsdkVerif.Generated
+open SpsdkVerif.HabDcd (DCmd dcdEncode dcdParse dcdLen bdtEncode bdtParse)
+
+/-! ## 10. (phase 3) Write Data / Check Data / Initialize, `parse_command` over all command classes, DCD segment, boot data -/
+
+/-- the command tags, the tag set `parse_command` dispatches on, `SegDCD._COMMANDS`, the engine tags, the accepted
+    byte widths, the constants of the parameter byte and the Initialize limit of the current source are the ones
+    `Model/HabDcd.lean` is written against -/
+theorem dcd_tags_agree :
+    HabConsts.cmdTags.lookup "WRT_DAT" = some HabDcd.Spec.cmdWRT_DAT ∧
+    HabConsts.cmdTags.lookup "CHK_DAT" = some HabDcd.Spec.cmdCHK_DAT ∧
+    HabConsts.cmdTags.lookup "INIT" = some HabDcd.Spec.cmdINIT ∧
+    (∀ t, t ∈ HabConsts.cmdTags.map Prod.snd ↔ t ∈ HabDcd.Spec.cmdTags) ∧
+    (∀ t, t ∈ HabConsts.cmdDispatch.map Prod.fst ↔ t ∈ HabDcd.Spec.cmdTags) ∧
+    (∀ t, t ∈ HabConsts.dcdCommands ↔ t ∈ HabDcd.Spec.dcdCommands) ∧
+    (∀ t, t ∈ HabConsts.engines.map Prod.snd ↔ t ∈ HabDcd.Spec.engineTags) ∧
+    HabConsts.wrtDatWidths = HabDcd.Spec.widths ∧ HabConsts.chkDatWidths = HabDcd.Spec.widths ∧
+    HabConsts.initLimit = HabDcd.Spec.initLimit ∧
+    HabConsts.writeOps.map Prod.snd = [2, 3, 1, 0] ∧ HabConsts.checkOps.map Prod.snd = [0, 1, 2, 3] := by
+  refine ⟨by decide, by decide, by decide, ?_, ?_, ?_, ?_, by decide, by decide, by decide, by decide, by decide⟩ <;>
+    (intro t; simp only [HabConsts.cmdTags, HabConsts.cmdDispatch, HabConsts.dcdCommands, HabConsts.engines,
+      HabDcd.Spec.cmdTags, HabDcd.Spec.dcdCommands, HabDcd.Spec.engineTags, List.map, List.mem_cons,
+      List.not_mem_nil, or_false] <;> omega)
+
+/-- struct formats (normalised field lists) of the pack / unpack_from calls and the parameter byte
+    `((ops & 3) << 3) | (width & 7)` -/
+theorem dcd_formats_agree :
+    HabConsts.wrtDatPack.map Prod.fst = [">II"] ∧ HabConsts.wrtDatUnpack.map (·.1) = [">II"] ∧
+    HabConsts.chkDatPack.map Prod.fst = [">II", ">I"] ∧ HabConsts.chkDatUnpack.map (·.1) = [">II", ">I"] ∧
+    HabConsts.initPack.map Prod.fst = [">I"] ∧ HabConsts.initUnpack.map (·.1) = [">I"] ∧
+    HabConsts.headerFormat = ">BHB" ∧ HabConsts.bdtFormat = "<III" ∧
+    HabConsts.wrtDatParamConsts = [3, 3, 7] ∧ HabConsts.chkDatParamConsts = [3, 3, 7] ∧
+    (∀ w o, HabDcd.parByte w o = ((o &&& 3) <<< 3) ||| (w &&& 7)) := by
+  refine ⟨by decide, by decide, by decide, by decide, by decide, by decide, by decide, by decide, by decide,
+    by decide, ?_⟩
+  intro w o
+  have h1 : o &&& 3 = o % 4 := Nat.and_two_pow_sub_one_eq_mod o 2
+  have h2 : w &&& 7 = w % 8 := Nat.and_two_pow_sub_one_eq_mod w 3
+  have h3 : (o % 4) <<< 3 = 2 ^ 3 * (o % 4) := by rw [Nat.shiftLeft_eq, Nat.mul_comm]
+  have h4 : w % 8 < 2 ^ 3 := Nat.mod_lt _ (by decide)
+  rw [h1, h2, h3, ← Nat.two_pow_add_eq_or_of_lt h4]
+  unfold HabDcd.parByte
+  omega
+
+/-- every command class `parse_command` knows: `parse_command(cmd.export() ‖ anything) = cmd` and
+    `cmd.size = len(cmd.export())`, for every value the constructors accept (all lengths of Write Data / Initialize /
+    Authenticate Data lists up to the 16-bit header length) -/
+theorem dcd_cmd_roundtrip (c : DCmd) (rest : Bytes) (h : c.WF) :
+    DCmd.decode (c.encode ++ rest) = some c ∧ c.encode.length = c.size :=
+  HabDcd.dcmd_roundtrip c rest h
+
+/-- `SegDCD.parse(SegDCD.export() ‖ anything)` returns the parameter byte and the command list, for every list of
+    well-formed Write Data / Check Data / NOP / Unlock commands whose total length fits the 16-bit header field -/
+theorem dcd_segment_roundtrip (p : Nat) (cmds : List DCmd) (rest : Bytes) (hp : p < 256)
+    (hw : ∀ c ∈ cmds, c.WF) (hd : ∀ c ∈ cmds, c.inDcd = true) (hl : dcdLen cmds < 65536) :
+    dcdParse (dcdEncode p cmds ++ rest) = .ok (p, cmds) :=
+  HabDcd.dcd_segment_roundtrip p cmds rest hp hw hd hl
+
+/-- an exported DCD segment is a DCD block in the sense of the container theorems (`Cfg.dcd`, `DcdWF`) -/
+theorem dcd_export_wf (p : Nat) (cmds : List DCmd) (hp : p < 256) (hx : p ≠ 0xC0)
+    (hw : ∀ c ∈ cmds, c.WF) (hl : dcdLen cmds < 65536) : DcdWF (dcdEncode p cmds) :=
+  HabDcd.dcd_export_wf p cmds hp hx hw hl
+
+/-- `SegBDT.parse(SegBDT.export()) = (start, length, plugin)` -/
+theorem bdt_roundtrip (s l p : Nat) (rest : Bytes) (hs : s < 2 ^ 32) (hl : l < 2 ^ 32) (hp : p ≤ 2) :
+    bdtParse (bdtEncode s l p ++ rest) = .ok (s, l, p) :=
+  HabDcd.bdt_roundtrip_aux s l p rest hs hl hp
+
+/-- OPEN FINDING C07-checkdata-zero-count (current behaviour, stated): a Check Data command with poll count 0 is
+    exported as 16 bytes under a header length of 12 and parses back WITHOUT a count; `DCmd.WF` excludes exactly it.
+    Full-strength statement that fails today: `dcd_cmd_roundtrip` with `∀ c, count = some c → c < 2 ^ 32` in `DCmd.WF`. -/
+theorem checkdata_zero_count_breaks (w o a m : Nat) (hw : w ∈ HabDcd.Spec.widths) (ho : o < 4) (ha : a < 2 ^ 32)
+    (hm : m < 2 ^ 32) (rest : Bytes) :
+    (DCmd.checkData w o a m (some 0)).size = 12 ∧ (DCmd.checkData w o a m (some 0)).encode.length = 16 ∧
+    DCmd.decode ((DCmd.checkData w o a m (some 0)).encode ++ rest) = some (.checkData w o a m none) :=
+  HabDcd.checkData_zero_count_breaks w o a m hw ho ha hm rest
+
+/-! non-vacuity and sanity -/
+def exDcdCmds : List DCmd :=
+  [.writeData 4 0 [(0x400FC068, 0xFFFFFFFF), (0x400FC06C, 0)], .writeData 1 3 [], .checkData 2 1 0x401F8000 0x0101 none,
+   .checkData 4 3 0xFFFFFFFF 1 (some 5), .other (.nop 0), .other (.unlock 0x1E 1 0)]
+
+example : ∀ c ∈ exDcdCmds, c.WF := by
+  intro c hc
+  simp only [exDcdCmds, List.mem_cons, List.not_mem_nil, or_false] at hc
+  rcases hc with rfl | rfl | rfl | rfl | rfl | rfl
+  · exact ⟨by decide, by decide, by decide, by intro p hp; simp at hp; rcases hp with rfl | rfl <;> decide⟩
+  · exact ⟨by decide, by decide, by decide, by intro p hp; cases hp⟩
+  · exact ⟨by decide, by decide, by decide, by decide, by intro c hc; cases hc⟩
+  · exact ⟨by decide, by decide, by decide, by decide, by intro c hc; cases hc; decide⟩
+  · exact ⟨show (0 : Nat) < 256 by decide, by decide⟩
+  · exact ⟨⟨by decide, by decide, by decide, by intro _; rfl⟩, by decide⟩
+example : (∀ c ∈ exDcdCmds, c.inDcd = true) ∧ dcdLen exDcdCmds < 65536 := by decide
+example : (DCmd.init 0x1D [1, 0xFFFFFFFE]).WF := ⟨by decide, by decide, by decide⟩
+example : dcdParse (dcdEncode 0x41 exDcdCmds) = .ok (0x41, exDcdCmds) := by decide
+example : (dcdEncode 0x41 exDcdCmds).length = 68 ∧ (dcdEncode 0x41 exDcdCmds).take 8 = [0xD2, 0, 68, 0x41, 0xCC, 0, 20, 4] := by decide
+example : DCmd.decode [0xB4, 0, 12, 0x1D, 0, 0, 0, 1, 0xFF, 0xFF, 0xFF, 0xFE] = some (.init 0x1D [1, 0xFFFFFFFE]) := by decide
+example : DCmd.decodeR [0xB4, 0, 8, 0x1D, 0xFF, 0xFF, 0xFF, 0xFF] = .error .spsdk := by decide   -- Initialize refuses 0xFFFFFFFF
+example : DCmd.decodeR [0xCC, 0, 4, 3] = .error .spsdk := by decide                                -- width 3
+example : DCmd.decodeR [0xCC, 0, 12, 4, 0, 0, 0, 1] = .error .other := by decide                   -- truncated pair
+example : dcdParse (dcdEncode 0x41 [.init 0 []]) = .error .spsdk := by decide                      -- Initialize is not a DCD command
+example : bdtParse (bdtEncode 0x60000000 0x5000 0) = .ok (0x60000000, 0x5000, 0) := by decide
+example : bdtParse (bdtEncode 0 0 3) = .error .spsdk := by decide
 
 end SpsdkVerif.C07
